@@ -62,7 +62,7 @@ func runC06(c *Ctx) {
 			// all success returns of buildResponse must agree
 			kind, idx := "", -1
 			for _, s := range successReturns(br, errResultIndex(br)) {
-				k, i := origin(s.Instr.(*ssa.Return).Results[ex.Index])
+				k, i := origin(retResult(s.Instr.(*ssa.Return), ex.Index))
 				if kind != "" && (k != kind || i != idx) {
 					return "", -1
 				}
@@ -129,7 +129,7 @@ func runC06(c *Ctx) {
 			}
 			ok := len(sinks) > 0
 			for _, s := range sinks {
-				rv := s.Instr.(*ssa.Return).Results[0]
+				rv := retResult(s.Instr.(*ssa.Return), 0)
 				g := gCmp("index != 0", func(v ssa.Value) bool { return v == rv }, isIntConst(0), mustDiffer)
 				if pass, _, path := c.mustPass(fn, s, g); !pass {
 					ok = false
